@@ -1,5 +1,7 @@
 ---- MODULE TraceWire ----
-(* C15, code side.  Every line is one step performed on the REAL node (sub-process, real handshake, real frames):
+(* C15, code side.  Every line is one step performed on the REAL node (sub-process, real handshake, real frames; Connect: the
+   remote party connected and the node runs the accepting side, Dial: the node dialed the remote party's listener, sent its
+   handshake request and waits for the response):
    what the process did (alive / exit status), whether the node closed the connection, which goroutines wait for a
    lock in a consistent snapshot in which nothing of the node can run, KiB allocated and KiB read during the step.
    A line is consumed only if that is what the property demands for the class in the current phase - or if it is
@@ -12,7 +14,7 @@ tv == <<phase, tainted, l>>
 
 TRows(c, ph) == {t \in ClassTable : t[1] = c /\ ph \in t[2]}
 Bound(rk) == MaxFrameK + SlackK + C * rk
-NextPhase(ph) == CASE ph = "PreHs" -> "ProtoHs" [] ph = "ProtoHs" -> "Est" [] OTHER -> ph
+NextPhase(ph) == CASE ph \in {"PreHs", "OutHs"} -> "ProtoHs" [] ph = "ProtoHs" -> "Est" [] OTHER -> ph
 
 \* the clauses that hold for every input whatsoever
 Healthy(e) == e.alive /\ Len(e.blocked) = 0 /\ e.allocK <= Bound(e.readK)
@@ -29,10 +31,15 @@ DevMatch(t, e) == CASE t[7] = "panic" -> ~e.alive
                     [] t[7] = "alloc" -> e.alive /\ e.allocK > Bound(e.readK)
                     [] OTHER -> FALSE
 
-TReset == Ev("reset") /\ phase' = "PreHs" /\ tainted' = FALSE
+TReset == Ev("reset") /\ phase' = "Idle" /\ tainted' = FALSE
+\* opening a connection in either direction: the node is alive, nothing is deadlocked and it waits for the remote's handshake packet
+\* (when dialing: after having sent its own request, which the remote could decrypt - E.req - otherwise the binding is broken)
 TConnect == /\ Ev("Connect") /\ ~tainted /\ "dead" \notin DOMAIN E
             /\ E.alive /\ Len(E.blocked) = 0 /\ ~E.closed
             /\ phase' = "PreHs" /\ UNCHANGED tainted
+TDial == /\ Ev("Dial") /\ ~tainted /\ "dead" \notin DOMAIN E
+         /\ E.alive /\ Len(E.blocked) = 0 /\ ~E.closed /\ E.req = "ok"
+         /\ phase' = "OutHs" /\ UNCHANGED tainted
 TRecv == /\ Ev("Recv") /\ ~tainted /\ "dead" \notin DOMAIN E
          /\ \E t \in TRows(E.a[1], phase) :
               \/ /\ Healthy(E) /\ ReactOK(t[3], E, phase)
@@ -47,7 +54,7 @@ TRecvClosed == /\ Ev("Recv") /\ ~tainted /\ "dead" \notin DOMAIN E /\ phase = "C
 \* after an accepted known failure the node is dead / deadlocked / busy: the rest of the behaviour carries no information
 TSkip == /\ tainted /\ l <= Len(Trace) /\ Trace[l].ev # "reset" /\ "panic" \notin DOMAIN Trace[l]
          /\ l' = l + 1 /\ UNCHANGED <<phase, tainted>>
-TraceNext == TReset \/ TConnect \/ TRecv \/ TRecvClosed \/ TSkip
-TraceSpec == l = 1 /\ phase = "PreHs" /\ tainted = FALSE /\ [][TraceNext]_tv
-PhaseOK == phase \in {"PreHs", "ProtoHs", "Est", "Closed"}
+TraceNext == TReset \/ TConnect \/ TDial \/ TRecv \/ TRecvClosed \/ TSkip
+TraceSpec == l = 1 /\ phase = "Idle" /\ tainted = FALSE /\ [][TraceNext]_tv
+PhaseOK == phase \in {"Idle", "PreHs", "OutHs", "ProtoHs", "Est", "Closed"}
 ====
